@@ -72,6 +72,7 @@ def run_vc(pid, spec, tier, verbose):
             continue
         out['functions'].append({'function': rep.qualname, 'source_sha256_16': rep.source_hash, 'paths': rep.paths,
                                  'obligations': n, 'discharged': d})
+        out.setdefault('used', set()).update(getattr(rep, 'used', set()))
         out['obligations'] += n
         out['discharged'] += d
         out['failed'].extend(f)
@@ -276,6 +277,17 @@ def write_evidence(pid, spec, tier, seed, vc, sym, rtc, real, known_hit, undecid
         cov['functions_under_contract'] = vc['functions']
         cov['vc'] = {k: vc[k] for k in ('obligations', 'discharged', 'explore_s', 'solve_s', 'solver_time_max_s',
                                         'solver_time_total_s', 'by_solver')}
+        # mechanical scan: every call-site contract / axiom the verified bodies relied on, split into those whose own
+        # body is verified by some registered check and those that are assumed
+        from checks import registry as _reg
+        verified = set()
+        for _p in _reg.PROPS.values():
+            for name in _p.get('vc', []):
+                verified.add(name.split('[')[0])
+        used = sorted(vc.get('used', ()))
+        cov['call_site_contracts'] = {
+            'verified_by_a_registered_check': [u for u in used if u in verified],
+            'assumed': [u for u in used if u not in verified]}
     if sym and sym.get('status') == 'ok':
         obligations += sym['obligations']
         discharged += sym['discharged']
@@ -320,7 +332,8 @@ def write_evidence(pid, spec, tier, seed, vc, sym, rtc, real, known_hit, undecid
     cov['known_findings_hit'] = sorted({k['id'] for k, _ in known_hit})
     cov['repo'] = frontend.repo_state()
     ev = {'property_id': pid, 'tier': tier, 'seed': seed, 'level': level, 'coverage': cov,
-          'assumptions': spec.get('assumptions', []) + TRUSTED_BASE,
+          'assumptions': spec.get('assumptions', []) + TRUSTED_BASE + [
+              'assumed at call sites: ' + u for u in cov.get('call_site_contracts', {}).get('assumed', [])],
           'wall_s': round(wall, 2), 'violations': len(real)}
     os.makedirs(os.path.join(HERE, 'evidence'), exist_ok=True)
     with open(os.path.join(HERE, 'evidence', pid + '.json'), 'w') as f:
